@@ -66,6 +66,7 @@ theorem fromExprD_routes (h : Hooks α) : (e : Expr) →
       simp only [Hooks.fromExprD, exprTerminalD]
       rw [fromExprD_routes h g, mapErr_mapErr]
   | .path p s => by simp [Hooks.fromExprD, exprTerminalD, Outcome.mapErr, Err.unexpectedExprType, Err.withSpan]
+  | .qpath p t s => by simp [Hooks.fromExprD, exprTerminalD, Outcome.mapErr, Err.unexpectedExprType, Err.withSpan]
   | .array es t s => by simp [Hooks.fromExprD, exprTerminalD, Outcome.mapErr, Err.unexpectedExprType, Err.withSpan]
   | .other k t s => by simp [Hooks.fromExprD, exprTerminalD, Outcome.mapErr, Err.unexpectedExprType, Err.withSpan]
 
@@ -75,6 +76,7 @@ theorem groups_transparent (h : Hooks α) : (e : Expr) →
   | .lit _ => rfl
   | .group g _ => by simp only [exprTerminalD, ungroup]; exact groups_transparent h g
   | .path _ _ => rfl
+  | .qpath _ _ _ => rfl
   | .array _ _ _ => rfl
   | .other _ _ _ => rfl
 
@@ -103,6 +105,7 @@ theorem ungroup_not_group : (e : Expr) → ∀ g s, ungroup e ≠ .group g s
   | .group g' _ => by intro g s; simp only [ungroup]; exact ungroup_not_group g' g s
   | .lit _ => by intro g s h; simp [ungroup] at h
   | .path _ _ => by intro g s h; simp [ungroup] at h
+  | .qpath _ _ _ => by intro g s h; simp [ungroup] at h
   | .array _ _ _ => by intro g s h; simp [ungroup] at h
   | .other _ _ _ => by intro g s h; simp [ungroup] at h
 
@@ -117,6 +120,7 @@ theorem exprTerminalD_form (h : Hooks α) (hx : h.fromExpr? = none) (e : Expr) :
   | group g s =>
       exact absurd hu (ungroup_not_group e g s)
   | path p s => simp [exprTerminalD, terminal, hx]
+  | qpath p t s => simp [exprTerminalD, terminal, hx]
   | array es t s => simp [exprTerminalD, terminal, hx]
   | other k t s => simp [exprTerminalD, terminal, hx]
 
